@@ -863,6 +863,22 @@ func runC05(r *vk.Run) {
 			"offset-without-duration":   "count_over_time(" + sel + "[1m] offset)",
 			"range-without-duration":    "count_over_time(" + sel + "[])",
 			"by-without-parens":         "sum by a (" + metric + ")",
+			// a separator separates: nothing may follow the last label but the closing parenthesis
+			"grouping-trailing-comma":       "sum by (a,) (" + metric + ")",
+			"grouping-trailing-comma-after": "sum(" + metric + ") without (a, b,)",
+			"grouping-only-comma":           "sum by (,) (" + metric + ")",
+			"grouping-leading-comma":        "sum by (,a) (" + metric + ")",
+			"grouping-double-comma":         "sum by (a,,b) (" + metric + ")",
+			"range-grouping-trailing-comma": "sum_over_time(" + sel + " | unwrap " + lbl + " [1m]) by (a,)",
+			"on-trailing-comma":             metric + " + on (a,) " + metric,
+			"ignoring-trailing-comma":       metric + " * ignoring (a, b,) " + metric,
+			"group-left-trailing-comma":     metric + " / on (a) group_left (b,) " + metric,
+			"selector-leading-comma":        `{,a="b"}`,
+			"drop-trailing-comma":           selPipe + " | drop a,",
+			"keep-trailing-comma":           selPipe + " | keep a, b, | json",
+			"json-trailing-comma":           selPipe + " | json a, | logfmt",
+			"label-format-trailing-comma":   selPipe + " | label_format a=b, | json",
+			"distinct-trailing-comma":       selPipe + " | distinct a, | json",
 			"vector-string":             `vector("a")`,
 			"vector-empty":              "vector()",
 			"label-replace-few-args":    "label_replace(" + metric + `, "a", "b")`,
